@@ -141,6 +141,12 @@ def worker(ctx, shard):
                 y, m = rng.randrange(1900, 2200), rng.randrange(1, 13)
                 t = datetime(y, m, 1) + timedelta(milliseconds=rng.randrange(-2000, 2000))
                 t = max(t, C.LO)
+            elif r < 0.88:  # the last / first millisecond of a unit (not only 23:59:59.999)
+                u = rng.choice(C.UNITS)
+                b = C.floor(u, C.LO + timedelta(milliseconds=rng.randrange(span_ms)))
+                t = C.step(u, b, 1) + timedelta(milliseconds=rng.choice([-1, -1, 0, 1]))
+                if not C.in_domain(t):
+                    continue
             else:  # within a ms of a tie for round()
                 u = rng.choice(C.UNITS)
                 b = C.floor(u, C.LO + timedelta(milliseconds=rng.randrange(span_ms)))
@@ -204,6 +210,8 @@ def worker(ctx, shard):
             width = rng.choice([0, 1, 2, 3, 5, 10, 20, 40]) * approx[u] + rng.randrange(0, approx[u])
             if rng.random() < 0.1:
                 width = 0
+            elif rng.random() < 0.05:
+                width = -width  # stop before start: the half-open window is empty
             stop = start + timedelta(milliseconds=width)
             if not (C.in_domain(start) and C.in_domain(stop)):
                 continue
